@@ -629,6 +629,8 @@ def oracle_operator(sc: dict, r: dict) -> list[tuple[str, dict]]:
         for plural, ns, name, rv in last["objects"]:
             if plural not in served or (SCOPE[plural] and ok_ns is not None and ns not in ok_ns):
                 continue
+            if not SCOPE[plural] and ok_ns is not None and not ok_ns:
+                continue        # no namespace is served: no (resource, namespace) pair is served at all
             if seen.get((plural, ns, name)) != rv:
                 if plural in gone410:
                     fails.append((f"{plural}/{ns}/{name} is at version {rv}, the last version a handler saw is {seen.get((plural, ns, name))}: "
